@@ -185,9 +185,9 @@ Proof. vm_compute. repeat split; reflexivity. Qed.
 (* two bugs with equal creation keys, one closed: status:open author:REN (name René) sort:creation-asc *)
 Example C12_eval_example :
   let rene := mkident [97;98;99] [82;101;110;233] [] in
-  let b1 := mkbug 1 5 7 9 9 rene 1 [] [116] [rene] [rene] [] [] in
-  let b2 := mkbug 2 5 7 8 8 rene 1 [[108]] [116] [rene] [rene] [] [] in
-  let b3 := mkbug 3 4 7 8 8 rene 2 [] [116] [rene] [rene] [] [] in
+  let b1 := mkbug 1 5 7 9 9 rene 1 [] [116] [rene] [rene] [] [[[116]]] in
+  let b2 := mkbug 2 5 7 8 8 rene 1 [[108]] [116] [rene] [rene] [] [[[116]]] in
+  let b3 := mkbug 3 4 7 8 8 rene 2 [] [116] [rene] [rene] [] [[[116]]] in
   match parse (k_status ++ [58] ++ s_open ++ [32] ++ k_author ++ [58;82;69;78] ++ [32] ++ k_sort ++ [58] ++ v_creation_asc) with
   | Some q => option_map (map b_id) (eval lower_rune q [b3; b2; b1]) = Some [2; 1]
   | None => False
